@@ -26,8 +26,10 @@ deriving Repr, DecidableEq
 
 /-- what a column holds: an image / divider without explicit width (with its own left/right padding), or something else -/
 inductive Leaf
-  | image (l r : Nat)
+  | image (l r : Nat)               -- mj-image without width: l / r = its horizontal padding plus border, per side
   | divider (l r : Nat)
+  | imageW (l r w : Nat)            -- mj-image with an explicit pixel width `w`
+  | carousel                        -- mj-carousel: its images are as wide as the container
   | other
 deriving Repr, DecidableEq
 
@@ -76,6 +78,10 @@ def leafContainer (c : Int) : Int := if c ≤ 0 then 600 else c
 def leafW (c : Int) : Leaf → Option Int
   | .image l r => some (if leafContainer c - ((l + r : Nat) : Int) ≤ 0 then leafContainer c else leafContainer c - ((l + r : Nat) : Int))
   | .divider l r => some (leafContainer c - ((l + r : Nat) : Int))
+  | .imageW l r w =>
+    let avail := if leafContainer c - ((l + r : Nat) : Int) ≤ 0 then leafContainer c else leafContainer c - ((l + r : Nat) : Int)
+    some (if (w : Int) < avail then (w : Int) else avail)        -- never wider than what is left after padding
+  | .carousel => some (leafContainer c)
   | .other => none
 
 /-- Outlook width of a column that is one of `k` non-raw children of a section whose content box is `box` -/
@@ -150,6 +156,8 @@ def specW (box : Q) (k : Nat) : ColW → Q
 def specLeaf (c : Q) : Leaf → Option Q
   | .image l r => some (c.sub (l + r))
   | .divider l r => some (c.sub (l + r))
+  | .imageW l r w => some (if (w : Int) * (c.2 : Int) < (c.sub (l + r)).1 then ((w : Int), 1) else c.sub (l + r))
+  | .carousel => some c
   | .other => none
 
 structure SColOut where
@@ -280,20 +288,26 @@ theorem leaf_le (c : Int) (lf : Leaf) (x : Int) (hc : 0 < c) (h : leafW c lf = s
   cases lf with
   | image l r => simp only [leafW, Option.some.injEq, hl] at h; subst h; split <;> omega
   | divider l r => simp only [leafW, Option.some.injEq, hl] at h; subst h; omega
+  | imageW l r w => simp only [leafW, Option.some.injEq, hl] at h; subst h; split <;> split <;> omega
+  | carousel => simp only [leafW, Option.some.injEq, hl] at h; omega
   | other => simp [leafW] at h
 
 /-- images and dividers without an explicit width fill exactly the space left after padding -/
-theorem leaf_exact (c : Int) (lf : Leaf) (x : Int) (hc : 0 < c) (h : leafW c lf = some x) :
-    (∃ l r, (lf = .image l r ∨ lf = .divider l r) ∧ (0 < c - ((l + r : Nat) : Int) → x = c - ((l + r : Nat) : Int))) := by
+theorem leaf_exact (c : Int) (l r : Nat) (lf : Leaf) (hlf : lf = .image l r ∨ lf = .divider l r) (x : Int) (hc : 0 < c)
+    (h : leafW c lf = some x) : 0 < c - ((l + r : Nat) : Int) → x = c - ((l + r : Nat) : Int) := by
   have hl : leafContainer c = c := by unfold leafContainer; split <;> omega
-  cases lf with
-  | image l r =>
-    simp only [leafW, Option.some.injEq, hl] at h; subst h
-    exact ⟨l, r, Or.inl rfl, fun hp => by split <;> omega⟩
-  | divider l r =>
-    simp only [leafW, Option.some.injEq, hl] at h; subst h
-    exact ⟨l, r, Or.inr rfl, fun _ => rfl⟩
-  | other => simp [leafW] at h
+  rcases hlf with rfl | rfl
+  · simp only [leafW, Option.some.injEq, hl] at h; subst h
+    intro hp; split <;> omega
+  · simp only [leafW, Option.some.injEq, hl] at h; subst h
+    intro _; rfl
+
+/-- an image with an explicit width gets that width, unless the space left after padding is smaller: then it gets that -/
+theorem leaf_explicit (c : Int) (l r w : Nat) (x : Int) (hc : 0 < c) (h : leafW c (.imageW l r w) = some x)
+    (hp : 0 < c - ((l + r : Nat) : Int)) : x = min (w : Int) (c - ((l + r : Nat) : Int)) := by
+  have hl : leafContainer c = c := by unfold leafContainer; split <;> omega
+  simp only [leafW, Option.some.injEq, hl] at h; subst h
+  split <;> split <;> omega
 
 /-- a width that asks for no more than the whole box: automatic, or a percentage ≤ 100 -/
 def ColW.Sane : ColW → Prop
